@@ -174,31 +174,32 @@ def eval_graphs(arg):
             if explorer and not any(len(set(v)) != len(v) for v in deps.values()):
                 want = whole_project(deps, defined)
                 idx = TaskIndex(pathlib.Path(root))
-                got = None
-                try:
-                    with common.cpu_budget(3):
-                        for rel in sorted({pathlib.Path(p, "COND") for p, _ in graph["nodes"]}):
-                            idx.load_all_tasks_in_cond_file(rel)
-                        roots = idx.validate_all_loaded_tasks()
-                    got = ("roots", {str(r) for r in roots})
-                except common.CpuBudgetExceeded:
-                    got = ("crash", "does not terminate (10 s CPU)")
-                except ConductorError as ex:
-                    got = ("error", KIND.get(type(ex).__name__, "other:" + type(ex).__name__))
-                except Exception as ex:
-                    got = ("crash", repr(ex))
-                out["reach"]["c14_whole_project_validations"] = out["reach"].get("c14_whole_project_validations", 0) + 1
-                W = {"engine": "E5", "graph": graph, "want": [want[0], sorted(want[1])], "got": [got[0], sorted(got[1]) if isinstance(got[1], set) else got[1]]}
-                if want[0] == "error":
-                    if got[0] != "error":
-                        out["violations"].append({"key": "C14:explorer-accepts-%s-project" % sorted(want[1])[0], "msg": "whole-project validation accepted a project with %s: %s" % (sorted(want[1]), deps), "witness": W})
-                    elif got[1] not in want[1]:
-                        out["violations"].append({"key": "C14:explorer-wrong-error-kind", "msg": "whole-project validation reported %s, applicable %s: %s" % (got[1], sorted(want[1]), deps), "witness": W})
-                else:
-                    if got[0] != "roots":
-                        out["violations"].append({"key": "C14:explorer-rejects-sound-project", "msg": "whole-project validation raised %s on a sound project: %s" % (got[1], deps), "witness": W})
-                    elif got[1] != want[1]:
-                        out["violations"].append({"key": "C14:explorer-wrong-roots", "msg": "roots %s, expected %s: %s" % (sorted(got[1]), sorted(want[1]), deps), "witness": W})
+                for attempt in range(2):   # the explorer keeps one index and validates it again on every refresh
+                    got = None
+                    try:
+                        with common.cpu_budget(3):
+                            for rel in (sorted({pathlib.Path(p, "COND") for p, _ in graph["nodes"]}) if attempt == 0 else ()):
+                                idx.load_all_tasks_in_cond_file(rel)
+                            roots = idx.validate_all_loaded_tasks()
+                        got = ("roots", {str(r) for r in roots})
+                    except common.CpuBudgetExceeded:
+                        got = ("crash", "does not terminate (10 s CPU)")
+                    except ConductorError as ex:
+                        got = ("error", KIND.get(type(ex).__name__, "other:" + type(ex).__name__))
+                    except Exception as ex:
+                        got = ("crash", repr(ex))
+                    out["reach"]["c14_whole_project_validations"] = out["reach"].get("c14_whole_project_validations", 0) + 1
+                    W = {"engine": "E5", "graph": graph, "validation_number_on_this_index": attempt + 1, "want": [want[0], sorted(want[1])], "got": [got[0], sorted(got[1]) if isinstance(got[1], set) else got[1]]}
+                    if want[0] == "error":
+                        if got[0] != "error":
+                            out["violations"].append({"key": "C14:explorer-accepts-%s-project" % sorted(want[1])[0], "msg": "whole-project validation accepted a project with %s: %s" % (sorted(want[1]), deps), "witness": W})
+                        elif got[1] not in want[1]:
+                            out["violations"].append({"key": "C14:explorer-wrong-error-kind", "msg": "whole-project validation reported %s, applicable %s: %s" % (got[1], sorted(want[1]), deps), "witness": W})
+                    else:
+                        if got[0] != "roots":
+                            out["violations"].append({"key": "C14:explorer-rejects-sound-project", "msg": "whole-project validation raised %s on a sound project: %s" % (got[1], deps), "witness": W})
+                        elif got[1] != want[1]:
+                            out["violations"].append({"key": "C14:explorer-wrong-roots", "msg": "roots %s, expected %s: %s" % (sorted(got[1]), sorted(want[1]), deps), "witness": W})
     out["sig"] = common.short_hash(sigs)
     out["sets"]["graphs"] = sigs
     out["violations"] = out["violations"][:3]
@@ -313,23 +314,24 @@ def explorer_route(arg):
             want = whole_project(deps, defined)
             routes.workspace.clear()
             routes.set_context(Context(pathlib.Path(root)))
-            try:
-                tg = routes.get_task_graph()
-                cid = lambda r: "//%s:%s" % ("" if r.path == "." else r.path, r.name)
-                got = ("roots", {cid(r) for r in tg.root_tasks}, {cid(t.identifier) for t in tg.tasks})
-            except HTTPException as ex:
-                got = ("error", ex.detail)
-            except Exception as ex:
-                got = ("crash", repr(ex))
-            out["reach"]["c14_route_calls"] = out["reach"].get("c14_route_calls", 0) + 1
-            W = {"engine": "E5-route", "graph": graph, "want": [want[0], sorted(want[1])], "got": [got[0], sorted(got[1]) if isinstance(got[1], set) else got[1]]}
-            if want[0] == "error" and got[0] != "error":
-                out["violations"].append({"key": "C14:explorer-accepts-%s-project" % sorted(want[1])[0], "msg": "get_task_graph() accepted a project with %s" % sorted(want[1]), "witness": W})
-            elif want[0] == "roots":
-                if got[0] != "roots":
-                    out["violations"].append({"key": "C14:explorer-rejects-sound-project", "msg": "get_task_graph() failed on a sound project: %s" % (got[1],), "witness": W})
-                elif got[1] != want[1] or got[2] != defined:
-                    out["violations"].append({"key": "C14:explorer-wrong-roots", "msg": "get_task_graph() roots %s tasks %s; expected roots %s tasks %s" % (sorted(got[1]), sorted(got[2]), sorted(want[1]), sorted(defined)), "witness": W})
+            for refresh in range(2):   # a second request (page refresh) against the same server state
+                try:
+                    tg = routes.get_task_graph()
+                    cid = lambda r: "//%s:%s" % ("" if r.path == "." else r.path, r.name)
+                    got = ("roots", {cid(r) for r in tg.root_tasks}, {cid(t.identifier) for t in tg.tasks})
+                except HTTPException as ex:
+                    got = ("error", ex.detail)
+                except Exception as ex:
+                    got = ("crash", repr(ex))
+                out["reach"]["c14_route_calls"] = out["reach"].get("c14_route_calls", 0) + 1
+                W = {"engine": "E5-route", "graph": graph, "request_number": refresh + 1, "want": [want[0], sorted(want[1])], "got": [got[0], sorted(got[1]) if isinstance(got[1], set) else got[1]]}
+                if want[0] == "error" and got[0] != "error":
+                    out["violations"].append({"key": "C14:explorer-accepts-%s-project" % sorted(want[1])[0], "msg": "get_task_graph() accepted a project with %s" % sorted(want[1]), "witness": W})
+                elif want[0] == "roots":
+                    if got[0] != "roots":
+                        out["violations"].append({"key": "C14:explorer-rejects-sound-project", "msg": "get_task_graph() failed on a sound project: %s" % (got[1],), "witness": W})
+                    elif got[1] != want[1] or got[2] != defined:
+                        out["violations"].append({"key": "C14:explorer-wrong-roots", "msg": "get_task_graph() roots %s tasks %s; expected roots %s tasks %s" % (sorted(got[1]), sorted(got[2]), sorted(want[1]), sorted(defined)), "witness": W})
     out["sample"] = {"route_graph": graphs[0] if graphs else None}
     return out
 
